@@ -310,7 +310,9 @@ pub fn run(cert_cases: &str, import_cases: &str, out_path: &str, tier: &str) {
 	let cases = read_ndjson(cert_cases);
 	let stride = if tier == "quick" { 3 } else { 1 };
 	for (i, c) in cases.iter().enumerate() {
-		if !c["self"].as_bool().unwrap_or(false) || sval(c, "grp") == "autoserial" {
+		// "custom-dup": an extension of the caller's own under the OID of a typed field; what an import reads from such a
+		// certificate is the caller's extension as if a typed field had made it, which C17 has no original to compare with
+		if !c["self"].as_bool().unwrap_or(false) || sval(c, "grp") == "autoserial" || sval(c, "grp") == "custom-dup" {
 			continue;
 		}
 		if sval(c, "grp") == "presence" && i % stride != 0 {
